@@ -44,6 +44,10 @@ pub struct Case {
     /// subtracted from every content-based distance (negative and mixed-sign distances)
     #[serde(default)]
     pub shift: f32,
+    /// how the input sets are handed over: 0 Vec, 1 filtered iterator (size hint 0..n),
+    /// 2 Vec chained with a filtered iterator (lower size hint < n), 3 map_while iterator
+    #[serde(default)]
+    pub iter_kind: u8,
 }
 
 const METHODS: [&str; 4] = ["single", "complete", "average", "union"];
@@ -119,11 +123,21 @@ pub fn check(c: &Case, stats: &mut Stats) -> CheckResult {
                     HpoSet::new(o, g)
                 })
                 .collect();
+            // the constructors take any `IntoIterator`: exercise iterators without an exact size hint
+            let half = sets.len() / 2;
+            let mut tail = sets;
+            let head: Vec<HpoSet> = tail.drain(..half).collect();
+            let input: Box<dyn Iterator<Item = HpoSet>> = match c.iter_kind % 4 {
+                0 => Box::new(head.into_iter().chain(tail).collect::<Vec<HpoSet>>().into_iter()),
+                1 => Box::new(head.into_iter().chain(tail).filter(|_| true)),
+                2 => Box::new(head.into_iter().chain(tail.into_iter().filter(|_| true))),
+                _ => Box::new(head.into_iter().chain(tail).map_while(Some)),
+            };
             let l = match method {
-                0 => Linkage::single(sets, &distance),
-                1 => Linkage::complete(sets, &distance),
-                2 => Linkage::average(sets, &distance),
-                _ => Linkage::union(sets, &distance),
+                0 => Linkage::single(input, &distance),
+                1 => Linkage::complete(input, &distance),
+                2 => Linkage::average(input, &distance),
+                _ => Linkage::union(input, &distance),
             };
             let a: Vec<(usize, usize, f32, usize)> = l.cluster().map(|c| (c.lhs(), c.rhs(), c.distance(), c.len())).collect();
             let b: Vec<(usize, usize, f32, usize)> = l.iter().map(|c| (c.lhs(), c.rhs(), c.distance(), c.len())).collect();
@@ -215,6 +229,9 @@ pub fn check(c: &Case, stats: &mut Stats) -> CheckResult {
     // (how often the callback is invoked after the initial call is not part of the property)
     stats.count(&format!("callback-invocations:{mname}"), log.len() as u64);
     stats.label(mname);
+    if c.iter_kind % 4 != 0 {
+        stats.label("input-iterator-without-exact-size");
+    }
     let neg = clusters.iter().filter(|c| c.2 < 0.0).count();
     if neg == clusters.len() {
         stats.label("all-merge-distances-negative");
@@ -240,8 +257,8 @@ pub fn check(c: &Case, stats: &mut Stats) -> CheckResult {
 
 fn strategy(tier: Tier) -> BoxedStrategy<Case> {
     let max = if tier == Tier::Quick { 24usize } else { 40 };
-    (2..=max, 0u8..4, vec(any::<u16>(), NT as usize), vec(0u8..8, 40), vec(any::<u32>(), 40 * 40), any::<u64>(), proptest::bool::weighted(0.15), 0u8..4)
-        .prop_map(|(n, method, keys, extra, raw, seed, coarse, sign)| {
+    (2..=max, 0u8..4, vec(any::<u16>(), NT as usize), vec(0u8..8, 40), vec(any::<u32>(), 40 * 40), any::<u64>(), proptest::bool::weighted(0.15), 0u8..4, 0u8..4)
+        .prop_map(|(n, method, keys, extra, raw, seed, coarse, sign, iter_kind)| {
             // a random partition of a prefix of the 96 terms into n non-empty sets
             let mut order: Vec<(u16, u32)> = keys.iter().enumerate().map(|(i, k)| (*k, i as u32 + 1)).collect();
             order.sort();
@@ -289,7 +306,7 @@ fn strategy(tier: Tier) -> BoxedStrategy<Case> {
                 }
             }
             let shift = [0.0f32, 0.5, 2.0, 0.25][sign as usize];
-            Case { method, sets, table, seed, shift }
+            Case { method, sets, table, seed, shift, iter_kind }
         })
         .boxed()
 }
@@ -299,7 +316,7 @@ impl Property for C17 {
         "C17"
     }
     fn rule(&self) -> String {
-        "Generated: n in 2..=24 (thorough 40) pairwise disjoint input sets (mostly singletons, some with 2-3 terms, in one case of ten one input is the empty set) over a flat 96-term ontology; for single/complete/average a generated symmetric table of initial distances (distinct values, or few values so that ties are frequent; shifted so that distances are all positive, mixed-sign, all negative or touch zero); for union a symmetric pseudo-random distance that is a function of the two sets' contents, so merged sets get fresh values. Oracle = validity predicate simulated along the library's own merge choices (ties admit several dendrograms): exactly n-1 merges; each merge joins two live, different clusters (inputs or earlier merges n+k), so every input and intermediate cluster is merged exactly once and one cluster remains; the reported distance equals the pair's current distance bit for bit and no live pair is strictly closer; distances to the new cluster follow the method (min / max / mean of the two parts in f32 / content function of the union); len adds up and is n at the last merge; indicies() is a permutation of 0..n; cluster(), iter(), &linkage and into_cluster() agree; the first callback invocation asks every unordered pair of inputs exactly once (later invocations, which also pair the new set with itself, are not constrained). evaluations = clusterings. Non-trivial = n >= 4 and some merge joins two earlier clusters; distinct by hash of the case.".into()
+        "Generated: n in 2..=24 (thorough 40) pairwise disjoint input sets (mostly singletons, some with 2-3 terms, in one case of ten one input is the empty set) over a flat 96-term ontology, handed over as a Vec or as iterators without an exact size hint (filter, chain, map_while); for single/complete/average a generated symmetric table of initial distances (distinct values, or few values so that ties are frequent; shifted so that distances are all positive, mixed-sign, all negative or touch zero); for union a symmetric pseudo-random distance that is a function of the two sets' contents, so merged sets get fresh values. Oracle = validity predicate simulated along the library's own merge choices (ties admit several dendrograms): exactly n-1 merges; each merge joins two live, different clusters (inputs or earlier merges n+k), so every input and intermediate cluster is merged exactly once and one cluster remains; the reported distance equals the pair's current distance bit for bit and no live pair is strictly closer; distances to the new cluster follow the method (min / max / mean of the two parts in f32 / content function of the union); len adds up and is n at the last merge; indicies() is a permutation of 0..n; cluster(), iter(), &linkage and into_cluster() agree; the first callback invocation asks every unordered pair of inputs exactly once (later invocations, which also pair the new set with itself, are not constrained). evaluations = clusterings. Non-trivial = n >= 4 and some merge joins two earlier clusters; distinct by hash of the case.".into()
     }
     fn assumptions(&self) -> Vec<String> {
         vec![
@@ -314,7 +331,7 @@ impl Property for C17 {
         }
     }
     fn required_labels(&self, _tier: Tier) -> Vec<&'static str> {
-        vec!["nontrivial", "single", "complete", "average", "union", "tie", "multi-term-inputs", "empty-input-set", "all-merge-distances-negative", "mixed-sign-distances"]
+        vec!["nontrivial", "single", "complete", "average", "union", "tie", "multi-term-inputs", "empty-input-set", "input-iterator-without-exact-size", "all-merge-distances-negative", "mixed-sign-distances"]
     }
     fn run_generated(&self, tier: Tier, seed: u64, n: u64, stats: &mut Stats) -> Option<(Value, Failure)> {
         run_typed(strategy(tier), seed, n, stats, check)
